@@ -83,6 +83,8 @@ func ServiceFunction(g Generator, s *compile.ServiceSpec, f *compile.FunctionSpe
 		Namespace: NewNamespace(),
 		Name:      argsName,
 		Fields:    compile.FieldGroup(f.ArgsSpec),
+
+		IsEnveloper: true,
 		Doc: fmt.Sprintf(
 			"%v represents the arguments for the %v.%v function.\n\n"+
 				"The arguments for %v are sent and received over the wire as this struct.",
@@ -132,6 +134,7 @@ func ServiceFunction(g Generator, s *compile.ServiceSpec, f *compile.FunctionSpe
 		IsUnion:         true,
 		AllowEmptyUnion: f.ResultSpec.ReturnType == nil,
 		Doc:             resultDoc,
+		IsEnveloper:     true,
 	}
 	if err := resultGen.Generate(g); err != nil {
 		return wrapGenerateError(fmt.Sprintf("%s.%s", s.Name, f.Name), err)
